@@ -124,6 +124,32 @@ def error_cases(ctx, A, C, R, rng, tier):
             ctx.violation("c19:undocumented-exception:%s:options" % out, "invalid options end in %s, not in a documented error class" % out, replay)
         elif out != expect:
             ctx.violation("c19:decision-logic:%s-vs-%s" % (out, expect), "outcome %s differs from the decision-logic model (%s)" % (out, mo), replay)
+    # (3b) invalid strings derived mechanically from the valid names (every proper substring incl. the empty string, case
+    # changes, padding, doubling), one option at a time with the other options valid
+    def variants(valid):
+        out = set()
+        for v in valid:
+            out |= {v[i:j] for i in range(len(v) + 1) for j in range(i, len(v) + 1)}
+            out |= {v.upper(), v.lower(), v.capitalize(), v.swapcase(), v + " ", " " + v, v + v, v + "x", v[::-1]}
+        return sorted(x for x in out if x not in valid)
+    plans = [("signal_operator", variants(["Wx", "Wz"]), lambda s: (s, None, "laurent")),
+             ("measurement", variants(["x", "z"]), lambda s: (str(rng.choice(["Wx", "Wz"])), s, "laurent")),
+             ("method", variants(["laurent", "tf"]), lambda s: (str(rng.choice(["Wx", "Wz"])), None, s))]
+    for optname, vals, mk in plans:
+        if tier == "quick" and len(vals) > 30:
+            vals = [vals[int(i)] for i in sorted(rng.permutation(len(vals))[:30])] + [""]
+        for sval in vals:
+            so, me, method = mk(sval)
+            out, val = classify(lambda: A.QuantumSignalProcessingPhases(list(good), signal_operator=so, measurement=me, method=method))
+            mo = drv.ask("pipe.qsp %s %s %s 1 1 1" % (tok(so), tok(me), tok(method)))
+            expect = {"phases": "returned"}.get(mo, mo[4:] if mo.startswith("err:") else mo)
+            ctx.count("derived-invalid-%s:%s" % (optname, out))
+            ctx.case(["derived", optname, sval], True, {"option": optname, "value": sval, "outcome": out, "model": mo})
+            replay = {"call": "QuantumSignalProcessingPhases", "poly": good, "signal_operator": so, "measurement": me, "method": method}
+            if out != "returned" and out not in DOCUMENTED:
+                ctx.violation("c19:undocumented-exception:%s:options" % out, "invalid %s %r ends in %s, not in a documented error class" % (optname, sval, out), replay)
+            elif out != expect:
+                ctx.violation("c19:decision-logic:%s-vs-%s" % (out, expect), "%s = %r: outcome %s differs from the decision-logic model (%s)" % (optname, sval, out, mo), replay)
     for ct in ("F", "f", "P", "p", "Q", "", "FP", "g"):
         out, val = classify(lambda: C.completion_from_root_finding(np.array([0.3, 0.4]), coef_type=ct, seed=[0, 0]))
         mo = drv.ask("pipe.completion %s %d 1" % (tok(ct), 0 if ct in ("P", "p") else 1))
